@@ -29,7 +29,7 @@ import (
 )
 
 // Count is the number of fixed keys.
-const Count = 10
+const Count = 16
 
 // Script opcodes / address prefixes (documented constants, not imported from the repository).
 const (
